@@ -1,18 +1,136 @@
-(* C06: every port 0..65535 is well-formed in the sense of C06_Round.port_wf (its decimal rendering
-   is read back by int(), is ASCII digits only).  Exhaustive computation over the 65536 values with
-   vm_compute; kept out of the dependency cone of Props/C06.v because coqchk, which has no VM,
-   needs more than half an hour for it. *)
+(* C06: every port 0..65535 is well-formed in the sense of C06_Round.port_wf - structurally:
+   str(n) is a non-empty string of ASCII digits with at most as many digits as n has bits, int() strips
+   nothing from it, finds no sign and no underscore, and N.of_uint inverts N.to_uint. *)
 From Boltons Require Import Lib.Prelude Lib.C06_Text Spec.C06_Spec Model.C06_Model
   Proofs.C06_Codec Proofs.C06_Round.
-From Coq Require Import ZifyBool.
+From Coq Require Import ZifyBool DecimalN DecimalPos DecimalFacts.
 Open Scope N_scope.
 
-Lemma port_check_all : forallb port_check (range 65536) = true.
-Proof. vm_compute. reflexivity. Qed.
+(* ---- digit strings ---------------------------------------------------------------------------- *)
+Lemma digits_all_digit u : forallb is_digit (digits_of_uint u) = true.
+Proof. induction u; cbn [digits_of_uint forallb]; try reflexivity; rewrite IHu; reflexivity. Qed.
+
+Lemma uint_of_digits_of u : uint_of_digits (digits_of_uint u) = Some u.
+Proof. induction u; cbn [digits_of_uint uint_of_digits]; try reflexivity; rewrite IHu; reflexivity. Qed.
+
+Lemma digits_length u : length (digits_of_uint u) = Decimal.nb_digits u.
+Proof. induction u; cbn [digits_of_uint length Decimal.nb_digits]; try reflexivity; rewrite IHu; reflexivity. Qed.
+
+Lemma digit_facts c : is_digit c = true ->
+  int_space c = false /\ (c =? 45) = false /\ (c =? 43) = false /\ (c =? 95) = false /\
+  is_ascii c = true /\ not_in [64; 47; 63; 35; 93] c = true.
+Proof.
+  unfold is_digit, int_space, is_ascii, not_in. cbn [memN]. intro H.
+  repeat split; lia.
+Qed.
+
+Lemma forallb_impl {A} (p q : A -> bool) l : (forall x, p x = true -> q x = true) -> forallb p l = true -> forallb q l = true.
+Proof. intros I H. rewrite forallb_forall in *. intros x Hx. apply I, H, Hx. Qed.
+
+Lemma lstrip_digit ds : match ds with c :: _ => is_digit c = true | [] => True end -> lstrip int_space ds = ds.
+Proof. destruct ds as [|c r]; [reflexivity|]. intro H. cbn [lstrip]. destruct (digit_facts c H) as [S _]. rewrite S. reflexivity. Qed.
+
+Lemma forallb_rev {A} (p : A -> bool) l : forallb p l = true -> forallb p (rev l) = true.
+Proof. intro H. rewrite forallb_forall in *. intros x Hx. apply H. apply in_rev. exact Hx. Qed.
+
+Lemma strip_digits ds : forallb is_digit ds = true -> strip int_space ds = ds.
+Proof.
+  intro H. unfold strip. rewrite (lstrip_digit ds).
+  - rewrite (lstrip_digit (rev ds)); [apply rev_involutive|].
+    pose proof (forallb_rev _ _ H) as R. destruct (rev ds) as [|c r]; [exact I|].
+    cbn [forallb] in R. apply andb_true_iff in R as [R _]. exact R.
+  - destruct ds as [|c r]; [exact I|]. cbn [forallb] in H. apply andb_true_iff in H as [H _]. exact H.
+Qed.
+
+Lemma drop_underscores_digits ds : forallb is_digit ds = true -> drop_underscores true ds = Some ds.
+Proof.
+  induction ds as [|c r IH]; intro H; [reflexivity|].
+  cbn [forallb] in H. apply andb_true_iff in H as [Hc Hr].
+  cbn [drop_underscores]. destruct (digit_facts c Hc) as [_ [_ [_ [U _]]]]. rewrite U, Hc, (IH Hr). reflexivity.
+Qed.
+
+Lemma sign_digit (c : N) (r : text) : is_digit c = true ->
+  (match c :: r with 45 :: r' => (true, r') | 43 :: r' => (false, r') | _ => (false, c :: r) end) = (false, c :: r).
+Proof.
+  intro H. unfold is_digit in H.
+  assert (E : c = 48 \/ c = 49 \/ c = 50 \/ c = 51 \/ c = 52 \/ c = 53 \/ c = 54 \/ c = 55 \/ c = 56 \/ c = 57) by lia.
+  repeat (destruct E as [E|E]; [subst c; reflexivity|]). subst c. reflexivity.
+Qed.
+
+(* int() of a non-empty digit string of at most 4300 digits *)
+Lemma py_int_digits u :
+  u <> Decimal.Nil -> (Decimal.nb_digits u <= 4300)%nat ->
+  py_int (digits_of_uint u) = Some (Z.of_N (N.of_uint u)).
+Proof.
+  intros NE L. unfold py_int. rewrite (strip_digits _ (digits_all_digit u)).
+  pose proof (digits_all_digit u) as D. pose proof (digits_length u) as LEN.
+  destruct (digits_of_uint u) as [|c r] eqn:E.
+  { exfalso. destruct u; try discriminate. apply NE. reflexivity. }
+  cbn [forallb] in D. apply andb_true_iff in D as [Dc Dr].
+  assert (LT : Nat.ltb INT_MAX_STR_DIGITS (length (c :: r)) = false).
+  { apply Nat.ltb_ge. rewrite LEN. exact L. }
+  assert (UD : uint_of_digits (c :: r) = Some u) by (rewrite <- E; apply uint_of_digits_of).
+  assert (E10 : c = 48 \/ c = 49 \/ c = 50 \/ c = 51 \/ c = 52 \/ c = 53 \/ c = 54 \/ c = 55 \/ c = 56 \/ c = 57)
+    by (unfold is_digit in Dc; lia).
+  repeat (destruct E10 as [E10|E10];
+          [subst c; cbn [drop_underscores N.eqb Pos.eqb is_digit N.leb N.compare Pos.compare Pos.compare_cont andb];
+           rewrite (drop_underscores_digits r Dr), LT, UD; reflexivity|]).
+  subst c. cbn [drop_underscores N.eqb Pos.eqb is_digit N.leb N.compare Pos.compare Pos.compare_cont andb].
+  rewrite (drop_underscores_digits r Dr), LT, UD. reflexivity.
+Qed.
+
+(* ---- a decimal numeral has at most as many digits as the number has bits ------------------------- *)
+Lemma double_digits d :
+  (Decimal.nb_digits (Decimal.Little.double d) <= S (Decimal.nb_digits d))%nat /\
+  (Decimal.nb_digits (Decimal.Little.succ_double d) <= S (Decimal.nb_digits d))%nat.
+Proof. induction d; cbn [Decimal.Little.double Decimal.Little.succ_double Decimal.nb_digits]; try (destruct IHd as [A B]); split; lia. Qed.
+
+Lemma little_digits p : (Decimal.nb_digits (Pos.to_little_uint p) <= Pos.size_nat p)%nat.
+Proof.
+  induction p as [p IH|p IH|]; cbn [Pos.to_little_uint Pos.size_nat].
+  - pose proof (proj2 (double_digits (Pos.to_little_uint p))). lia.
+  - pose proof (proj1 (double_digits (Pos.to_little_uint p))). lia.
+  - cbn. lia.
+Qed.
+
+Lemma size_nat_bound (k : nat) : forall p, N.pos p < 2 ^ N.of_nat k -> (Pos.size_nat p <= k)%nat.
+Proof.
+  induction k as [|k IH]; intros p H.
+  - cbn in H. lia.
+  - rewrite Nat2N.inj_succ, N.pow_succ_r' in H.
+    destruct p as [p|p|]; cbn [Pos.size_nat]; [| |lia].
+    + assert (N.pos p < 2 ^ N.of_nat k) by lia. specialize (IH p H0). lia.
+    + assert (N.pos p < 2 ^ N.of_nat k) by lia. specialize (IH p H0). lia.
+Qed.
+
+Lemma to_uint_digits n : n < 2 ^ 4300 -> (Decimal.nb_digits (N.to_uint n) <= 4300)%nat.
+Proof.
+  intro H. destruct n as [|p]; [cbn; lia|].
+  cbn [N.to_uint]. unfold Pos.to_uint. rewrite nb_digits_rev.
+  pose proof (little_digits p). pose proof (size_nat_bound 4300 p).
+  assert (N.of_nat 4300 = 4300) by reflexivity. rewrite H2 in H1. specialize (H1 H). lia.
+Qed.
+
+Lemma to_uint_nonnil n : N.to_uint n <> Decimal.Nil.
+Proof. destruct n as [|p]; [discriminate|apply Unsigned.to_uint_nonnil]. Qed.
+
+(* ---- ports ----------------------------------------------------------------------------------------- *)
+Theorem port_check_bits n : n < 2 ^ 4300 -> port_check n = true.
+Proof.
+  intro H. unfold port_check, str_of_N.
+  rewrite (py_int_digits (N.to_uint n) (to_uint_nonnil n) (to_uint_digits n H)).
+  rewrite DecimalN.Unsigned.of_to, Z.eqb_refl. cbn [andb].
+  pose proof (digits_all_digit (N.to_uint n)) as D.
+  unfold all_ascii. rewrite (forallb_impl _ is_ascii _ (fun c Hc => proj1 (proj2 (proj2 (proj2 (proj2 (digit_facts c Hc)))))) D).
+  rewrite (forallb_impl _ (not_in [64; 47; 63; 35; 93]) _ (fun c Hc => proj2 (proj2 (proj2 (proj2 (proj2 (digit_facts c Hc)))))) D).
+  rewrite D. reflexivity.
+Qed.
 
 Theorem port_wf_range p : (0 <= p < 65536)%Z -> port_wf (Some p) = true.
 Proof.
   intro H. cbn [port_wf]. apply andb_true_iff. split; [apply Z.leb_le; lia|].
-  assert (L : Z.to_N p < 65536) by lia.
-  exact (forallb_range 65536 _ port_check_all (Z.to_N p) L).
+  apply port_check_bits.
+  assert (E : 65536 = 2 ^ 16) by reflexivity.
+  assert (Z.to_N p < 2 ^ 16) by (rewrite <- E; lia).
+  eapply N.lt_le_trans; [exact H0|]. apply N.pow_le_mono_r; lia.
 Qed.
